@@ -121,6 +121,8 @@ class _VGLevyMeasure(LevyMeasure):
             return 0
 
     def integrate(self, a: float, b: float) -> float:
+        if a == b:
+            return 0.0
         c, lm, lp = (
             self.parameters._c,
             self.parameters._lambda_m,
